@@ -130,6 +130,34 @@ def _py(q):
     return q[1] if len(q) == 2 else (q[1], q[2], q[3])
 
 
+def _b(x):
+    """text of a BioSeq attribute as the bytes it stands for (UTF-8), carried as a latin-1 string like every model value"""
+    return x.encode('utf-8').decode('latin-1') if isinstance(x, str) else x
+
+
+def U8(text):
+    """non-ASCII description text -> the byte string (as latin-1 characters) of its UTF-8 encoding, as written to the file"""
+    return text.encode('utf-8').decode('latin-1')
+
+
+NONASCII = [' \u03b2-lactamase 37 \u00b0C', ' \u00e9', ' caf\u00e9 \u00e0', ' \u00fc\u00f1\u00ee \u00df', ' \u4e2d\u6587 protein',
+            ' \U0001f9ec dna', ' \u00c0\u00c5\u0100\u017f x', '\t\u03b1/\u03b2 fold, \u00b5M; x=\u00bd', ' \u07ff\u0800\uffee \U00010000\U0010ffff']
+
+
+def rand_nonascii(rng):
+    if rng.random() < 0.7:
+        return U8(rng.choice(NONASCII))
+    # arbitrary code points whose UTF-8 bytes cover 0x80-0xff lead/continuation bytes (no white space, no surrogates)
+    out = ' '
+    for _ in range(rng.choice([1, 3, 6])):
+        cp = rng.choice([rng.randint(0xa1, 0x7ff), rng.randint(0x800, 0x1fff), rng.randint(0x3001, 0xd7ff),
+                         rng.randint(0xe000, 0xffff), rng.randint(0x10000, 0x10ffff)])
+        if cp in (0x1680,) or chr(cp).isspace():
+            cp = 0xe9
+        out += chr(cp)
+    return U8(out + rng.choice(['', ' x']))
+
+
 def _unpoison(idx):
     # binarysearchfile 0.2.0 leaves a closed handle behind when a lookup fails (unknown id), which makes every later
     # query on the same object raise; not part of C09 (unknown ids are outside its quantifier), so the handle is dropped
@@ -145,7 +173,7 @@ def _one_query(idx, q):
             b = idx.get(_py(q))
             assert len(b) == 1
             s = b[0]
-            return [s.id, s.meta._fasta.header, str(s)]
+            return [_b(s.id), _b(s.meta._fasta.header), str(s)]
         if api == 1:
             return idx.get_fasta(_py(q))
         return idx.get_fastaheader(_py(q))
@@ -165,7 +193,7 @@ def run_index(case, d):
         b = open(p, 'rb').read()
         try:      # "reading the file": sugar.read of the whole file, compared with the model's whole-file reader
             import sugar
-            rd = [[x.id, x.meta._fasta.header, str(x)] for x in sugar.read(p, fmt='fasta')]
+            rd = [[_b(x.id), _b(x.meta._fasta.header), str(x)] for x in sugar.read(p, fmt='fasta')]
         except Exception as e:
             rd = canon_exc(e)
         sums.append([len(b), zlib.adler32(b), rd])
@@ -230,7 +258,7 @@ def _list_call(idx, api, use_it, qs):
         _unpoison(idx)
         if api == 0:
             seqs = list(idx.iter(arg)) if use_it else list(idx.get(arg))
-            out = [[s.id, s.meta._fasta.header, str(s)] for s in seqs]
+            out = [[_b(s.id), _b(s.meta._fasta.header), str(s)] for s in seqs]
         elif api == 1:
             out = list(idx.iter_fasta(arg))
             if not use_it:
@@ -494,7 +522,12 @@ def spec(case, got):
                 if data != want or r[len(hl):] not in text[a:b]:
                     return 'query %r: residues %r, expected %r' % (q, data, want)
         else:
-            exp = [rec['id'], (rec['id'] + rec['desc']).strip(), want.upper()]
+            # the header as text: UTF-8 decoding of the bytes between '>' and the line end, stripped (what read() gives)
+            try:
+                htxt = (rec['id'] + rec['desc']).encode('latin-1').decode('utf-8').strip()
+            except UnicodeDecodeError:
+                htxt = (rec['id'] + rec['desc']).strip()
+            exp = [rec['id'], _b(htxt), want.upper()]
             if r != exp:
                 return 'query %r: got %r, expected %r' % (q, r, exp)
     return None
@@ -641,7 +674,8 @@ def rand_case(rng, big):
             w = rng.choice([1, 2, 3, 4, 5, 7, 10, 60, 70, 80, 200])
             n = rng.choice([0, 1, max(w - 1, 0), w, w + 1, 2 * w, 2 * w + 1, 3 * w - 1, rng.randint(0, 40), rng.randint(0, 300)])
             r = {'id': rand_id(rng, used), 'w': w,
-                 'desc': rng.choice(['', '', ' d', ' some text, with | chars; x=1', '\tTab', '  two  ', ' x ']), 'seq': _rand_seq(rng, n)}
+                 'desc': rand_nonascii(rng) if rng.random() < 0.2 else
+                 rng.choice(['', '', ' d', ' some text, with | chars; x=1', '\tTab', '  two  ', ' x ']), 'seq': _rand_seq(rng, n)}
             if big and rng.random() < 0.3:
                 r['seq'] = _rand_seq(rng, rng.randint(30, 90))
                 r['rep'] = rng.randint(10, 60)
@@ -692,7 +726,7 @@ def regorder_case(rng, nfiles, order, db, reopen):
         for t in range(rng.choice([1, 2])):
             w = rng.choice([3, 4, 5, 7])
             n = rng.choice([w + 1, 2 * w, 2 * w + 3, 11])
-            r = {'id': 'r%d_%d' % (k, t), 'desc': rng.choice(['', ' file %d' % k]), 'seq': _rand_seq(rng, n), 'w': w}
+            r = {'id': 'r%d_%d' % (k, t), 'desc': rng.choice(['', ' file %d' % k, rand_nonascii(rng)]), 'seq': _rand_seq(rng, n), 'w': w}
             recs.append(r)
             qs += [Q(0, r['id']), Q(0, r['id'], w - 1, w + 2), Q(0, r['id'], 2, n + 5), Q(1, r['id']), Q(2, r['id']),
                    Q(1, r['id'], 1, None)]
@@ -722,7 +756,7 @@ def hist_case(rng):
         for t in range(rng.choice([2, 3])):
             w = rng.choice([3, 4, 5, 7])
             n = rng.choice([0, w + 1, 2 * w, 11, 11, 13])           # equal lengths and equal id lengths collide on purpose
-            r = {'id': 's%d%s' % (k, 'abc'[t]), 'desc': rng.choice(['', ' d', ' sample 7 ', '\tx']), 'seq': _rand_seq(rng, n), 'w': w}
+            r = {'id': 's%d%s' % (k, 'abc'[t]), 'desc': rng.choice(['', ' d', ' sample 7 ', '\tx', rand_nonascii(rng)]), 'seq': _rand_seq(rng, n), 'w': w}
             rs.append(r)
             recs.append(r)
         files.append({'crlf': rng.random() < 0.3, 'final': rng.random() < 0.7, 'recs': rs})
@@ -912,6 +946,50 @@ def extra_checks(rng, tier, cov):
             finally:
                 shutil.rmtree(d, ignore_errors=True)
     cov['seek_checks'] = nseek
+    # BioSeq / BioBasket equality as the upstream test uses it: index.get(id) == read(file)[id] and
+    # index.get((id, i, j)) == read(file)[id][i:j], sequence AND metadata (id, _fasta.header), headers with non-ASCII text
+    neq = 0
+    for k in range(60 if tier == 'thorough' else 8):
+        c = rand_case(rng, big=False)
+        for f in c['files']:
+            for r in f['recs']:
+                if rng.random() < 0.6:
+                    r['desc'] = rand_nonascii(rng)
+        if any(r['id'] == 'header' for f in c['files'] for r in f['recs']):
+            continue
+        for mode in ('binary', 'db'):
+            d = tempfile.mkdtemp(prefix='C09-', dir='/tmp')
+            try:
+                os.environ['XDG_CACHE_HOME'] = os.path.join(d, 'cache')
+                seqs = {}
+                for i, f in enumerate(c['files']):
+                    p = os.path.join(d, 'f%d.fasta' % i)
+                    with open(p, 'wb') as fh:
+                        fh.write(render_file(f))
+                    for x in sugar.read(p, fmt='fasta'):
+                        seqs[x.id] = x
+                idx = sugar.FastaIndex(os.path.join(d, 'i.sugarindex'), create=True, mode=mode)
+                idx.add(os.path.join(d, 'f*.fasta'), silent=True)
+                bad = None
+                for id_, x in seqs.items():
+                    g = idx.get(id_)[0]
+                    n = len(x)
+                    h = idx.get((id_, 1, n + 2))[0]
+                    if not (g == x) or g.meta._fasta.header != x.meta._fasta.header:
+                        bad = 'get(%r) != read(file)[%r]: header %r vs %r' % (id_, id_, g.meta._fasta.header, x.meta._fasta.header)
+                    elif not (h == x[1:n + 2]):
+                        bad = 'get((%r, 1, %d)) != read(file)[%r][1:%d]: %r vs %r' % (id_, n + 2, id_, n + 2, h, x[1:n + 2])
+                    if bad:
+                        break
+                if mode == 'db':
+                    idx.db.close()
+                neq += 1
+                if bad:
+                    yield {'case': dict(c, db=(mode == 'db')), 'impl': bad, 'spec': bad}
+                    break
+            finally:
+                shutil.rmtree(d, ignore_errors=True)
+    cov['bioseq_equality_checks'] = neq
     # progress bar branch of the scanner (fastaindex.py:44-47,79-86): tqdm is not installed here, so a stand-in is put into
     # the module attribute for one add() call without silent; the advertised total and the summed updates must be the file
     # size, one update per record, and the index must answer as usual
@@ -1004,6 +1082,10 @@ def extra_checks(rng, tier, cov):
                     if q[0] == 0 and not isinstance(r, dict):
                         i, j = (None, None) if len(q) == 2 else (q[2], q[3])
                         want = str(seqs[q[1]][i:j]) if q[1] in seqs else None
+                        if q[1] in seqs and (r[1] != _b(seqs[q[1]].meta._fasta.header) or r[0] != _b(seqs[q[1]].id)):
+                            yield {'case': dict(c), 'impl': ref, 'spec': 'query %r: index object has id/header %r, read(file) has %r' %
+                                   (q, r[:2], [seqs[q[1]].id, seqs[q[1]].meta._fasta.header])}
+                            break
                         if r[2] != want or r[0] != q[1]:
                             yield {'case': dict(c), 'impl': ref, 'spec': 'query %r: index gives %r, read(file)[id][i:j] gives %r' % (q, r, want)}
                             break
